@@ -57,6 +57,10 @@ def blocks(tier, seed):
     for mask in ([True, False], [False, False]):
         out.append({"kind": "numthr", "mask": mask, "phase": ph})
     out.append({"kind": "nproc-history", "phase": ph})
+    # centres a small fraction of a cell away from a periodic boundary (either side); image data in other numeric forms
+    for mask in ([True], [True, True], [True, False], [False, True]):
+        out.append({"kind": "edge", "mask": mask, "phase": ph})
+    out.append({"kind": "dataforms", "phase": ph})
     # periodic cylinders with one-decimal (not exactly representable) bounds, droplet centred EXACTLY on the periodic z boundary;
     # the image is rendered by the harness with the minimal-image distance (the library does not wrap z when rendering, F12)
     for L in (11.1, 12.3, 16.8):
@@ -116,6 +120,32 @@ def cases(block):
                         for rule in RULES[:2]:
                             for it in INTENS[:1] + INTENS[5:6] + INTENS[9:]:
                                 yield {"grid": g, "drops": [[c1, R1, w1], [c2, R2, w2]], "rule": rule, "intensity": it, "classes": [cls0]}
+    elif k == "edge":
+        mask = block["mask"]
+        dim = len(mask)
+        n = 24
+        g = {"kind": "cart", "shape": [n, n + 4][:dim], "dx": [1.0] * dim, "origin": [0.0] * dim, "periodic": mask}
+        ax = mask.index(True)
+        for e in (0.02, -0.02, 0.005, -0.005, 0.1, -0.1):
+            for side in (0, g["shape"][ax]):
+                for (R, w) in ((4.5, 1.0), (3.2, 1.5)):
+                    c = [g["shape"][a] // 2 + 0.33 + ph for a in range(dim)]
+                    c[ax] = side + e
+                    for rule in RULES:
+                        for it in ("standard", "affine3-auto-fitted"):
+                            yield {"grid": g, "drops": [[c, R, w]], "rule": rule, "intensity": it, "classes": ["edge" if a == ax else "interior" for a in range(dim)]}
+    elif k == "dataforms":
+        g2 = {"kind": "cart", "shape": [20, 22], "dx": [1.0, 1.0], "origin": [0.0, 0.0], "periodic": [True, False]}
+        g1 = {"kind": "cart", "shape": [28], "dx": [1.0], "origin": [0.0], "periodic": [False]}
+        gp = {"kind": "polar", "n": 24, "R": 24.0}
+        gc = {"kind": "cyl", "shape": [12, 32], "R": 12.0, "z": [-4.0, 28.0], "periodic_z": False}
+        probes = [(g2, [[[9.3 + ph, 10.2], 4.5, 1.0]], ["interior", "interior"]), (g2, [[[0.4 + ph, 11.3], 3.2, 1.5]], ["low", "interior"]), (g1, [[[13.3 + ph], 4.5, 1.5]], ["interior"]),
+                  (gp, [[[0.0, 0.0], 7.2, 1.5]], ["centred"]), (gc, [[[0.0, 0.0, 9.3 + ph], 4.0, 1.0]], ["on-axis"])]
+        for g, drops, cls in probes:
+            for form in ("float32", "fortran", "readonly", "float32-fortran"):
+                for rule in (0.5, "extrema"):
+                    for it in INTENS:
+                        yield {"grid": g, "drops": drops, "rule": rule, "intensity": it, "classes": cls, "form": form}
     elif k == "numthr":
         for Rf, wf in ((3.2, 1.0), (3.2, 2.0), (4.0, 2.0), (4.5, 1.5), (6.0, 1.0)):
             need = 2 * Rf + 14 * wf
@@ -327,6 +357,15 @@ def run_case(case, ctx):
         args = _SHARED  # the very same dict object for every analysis of the sequence
     try:
         field = ScalarField(grid, data)
+        form = case.get("form")
+        if form:
+            ctx.count("images-in-other-data-forms")
+            if "float32" in form:
+                field = ScalarField(grid, data.astype(np.float32), dtype=np.float32)
+            if "fortran" in form and field.data.ndim > 1:
+                field.data = np.asfortranarray(field.data)
+            if form == "readonly":
+                field.data.flags.writeable = False
         image = field.data.tobytes()
         extra = {"num_processes": case["nproc"]} if case.get("nproc") else {}
         em = locate_droplets(field, threshold=thr, refine=True, refine_args=args, **extra)
@@ -342,6 +381,8 @@ def run_case(case, ctx):
         return
     if any(cl in ("low", "outside") for cl in case["classes"]):
         ctx.count("across-or-outside-periodic-boundary")
+    if "edge" in case["classes"]:
+        ctx.count("centre-a-fraction-of-a-cell-from-a-periodic-boundary")
     if "fitted" in it:
         ctx.count("fitted-levels")
     if len(drops) == 2:
@@ -383,4 +424,4 @@ def run_case(case, ctx):
 
 def expected_positive(tier):
     return ["C05.count", "C05.position", "C05.radius", "C05.width", "C05.inbox", "across-or-outside-periodic-boundary", "fitted-levels", "two-droplets",
-            "small-droplet-within-one-big-radius-of-big-surface", "straddling-on-non-square-box", "annular-grid", "cylindrical-z-range-excluding-0", "shared-options-sequences", "shared-grid-sequences", "numeric-threshold-off-mid-level", "worker-process-sequences", "droplet-centred-on-periodic-z-boundary", "droplet-reaching-across-periodic-z-boundary", "option-prelude-sequences"]
+            "small-droplet-within-one-big-radius-of-big-surface", "straddling-on-non-square-box", "annular-grid", "cylindrical-z-range-excluding-0", "shared-options-sequences", "shared-grid-sequences", "numeric-threshold-off-mid-level", "worker-process-sequences", "droplet-centred-on-periodic-z-boundary", "droplet-reaching-across-periodic-z-boundary", "option-prelude-sequences", "centre-a-fraction-of-a-cell-from-a-periodic-boundary", "images-in-other-data-forms"]
